@@ -26,7 +26,7 @@ ASSUMPTIONS = [
     "predicates are pure functions of the offered NodeTraversalInfo",
     "reference walker (20 lines) encodes the statement: pruned nodes are offered to filter, their descendants are not visited",
 ]
-MUST_SEE = ["prune_not_filter_with_desc", "falsy_children", "shared_objects", "bottom_up_with_prune", "gather_calls", "deep_chain", "deep_3000_traversals", "abandoned_traversals", "reentrant_predicates"]
+MUST_SEE = ["late_defined_subclass", "prune_not_filter_with_desc", "falsy_children", "shared_objects", "bottom_up_with_prune", "gather_calls", "deep_chain", "deep_3000_traversals", "abandoned_traversals", "reentrant_predicates"]
 CONFIG = {
     "quick": {"shards": 16, "small_trees": 600, "exh_n": 4, "large_trees": 300, "watchdog_s": 300},
     "thorough": {"shards": 32, "small_trees": 400, "exh_n": 6, "large_trees": 250, "watchdog_s": 3000},
@@ -403,3 +403,22 @@ def run_shard(ctx):
                     )
         ctx.count("trees")
         ctx.count("trees_exhaustive" if small else "trees_sampled")
+
+    # ---- a subclass defined after gather() was first asked for its base classes ----
+    from pyoak.node import ASTNode as _AN
+
+    Leaf, Lst = U.cls[f"{P}Leaf"], U.cls[f"{P}List"]
+    t0 = Lst(items=(Leaf(v=1), Leaf(v=2)))
+    for cls_ in (Leaf, U.cls[f"{P}Expr"], _AN, (Leaf, Lst)):
+        list(t0.gather(cls_))
+    src = f"@dataclass(frozen=True)\nclass {P}Late5({P}Leaf):\n    extra: int = 0\n"
+    exec(compile(src, "<c05 late>", "exec", dont_inherit=True), U.module.__dict__)
+    late = U.module.__dict__[f"{P}Late5"]
+    ln = late(v=3)
+    t1 = Lst(items=(Leaf(v=1), ln, Leaf(v=2)))
+    ctx.count("late_defined_subclass")
+    for cls_, exact, exp in ((Leaf, False, [t1.items[0], ln, t1.items[2]]), (U.cls[f"{P}Expr"], False, [*t1.items]), (_AN, False, [*t1.items]), ((Leaf, Lst), False, [*t1.items]), (late, False, [ln]), (Leaf, True, [t1.items[0], t1.items[2]]), (late, True, [ln])):
+        ctx.evaluations += 1
+        got = list(t1.gather(cls_, exact_type=exact))
+        if [id(x) for x in got] != [id(x) for x in exp]:
+            ctx.violation("gather-late-subclass", "gather misses / misplaces an instance of a subclass defined after gather was first used", {"classes": str(cls_), "exact_type": exact, "got": len(got), "expected": len(exp)})
